@@ -75,6 +75,7 @@ func cmdCheck(args []string) int {
 	pk := fs.String("pkg", strings.Join(defaultPatterns, ","), "")
 	writeBaseline := fs.Bool("write-baseline", false, "record the discharged obligations as the baseline (developer use)")
 	keep := fs.Bool("keep", false, "")
+	noEvidence := fs.Bool("no-evidence", false, "self-test mode: do not write evidence; replay files go to a scratch directory")
 	fs.Parse(args)
 	if *tier == "" {
 		*tier = os.Getenv("VERIF_TIER")
@@ -87,6 +88,11 @@ func cmdCheck(args []string) int {
 		seed, _ = strconv.Atoi(s)
 	}
 	vd := verifDir()
+	outDir := vd
+	if *noEvidence {
+		outDir, _ = os.MkdirTemp("", "govc-selftest-out")
+		defer os.RemoveAll(outDir)
+	}
 	t0 := time.Now()
 	if *prop == "" {
 		fmt.Fprintln(os.Stderr, "--property required")
@@ -95,7 +101,7 @@ func cmdCheck(args []string) int {
 	e, err := Load(*repo, strings.Split(*pk, ","), []string{filepath.Join(vd, "spec")})
 	if err != nil {
 		fmt.Printf("UNDECIDED property=%s reason=%q\n", *prop, err.Error())
-		writeEvidenceError(vd, *prop, *tier, seed, err.Error(), time.Since(t0).Seconds())
+		writeEvidenceError(outDir, *prop, *tier, seed, err.Error(), time.Since(t0).Seconds())
 		return 2
 	}
 	var known KnownFile
@@ -132,7 +138,7 @@ func cmdCheck(args []string) int {
 	}
 	if len(keys) == 0 {
 		fmt.Printf("UNDECIDED property=%s reason=%q\n", *prop, "no contracts serve this property")
-		writeEvidenceError(vd, *prop, *tier, seed, "no contracts", time.Since(t0).Seconds())
+		writeEvidenceError(outDir, *prop, *tier, seed, "no contracts", time.Since(t0).Seconds())
 		return 2
 	}
 	type fr struct {
@@ -163,7 +169,7 @@ func cmdCheck(args []string) int {
 	var samples []map[string]any
 	violations := 0
 	newBase := map[string][]string{}
-	os.MkdirAll(filepath.Join(vd, "replays", *prop), 0o755)
+	os.MkdirAll(filepath.Join(outDir, "replays", *prop), 0o755)
 	for _, f := range frs {
 		rep := funcReport{Function: f.res.Short, Cases: f.res.Cases}
 		if f.res.Short == "" {
@@ -238,7 +244,7 @@ func cmdCheck(args []string) int {
 			rep.Failed = append(rep.Failed, full+":"+o.Result)
 			inBase := baseSet[f.res.Key+"#"+full]
 			// replay
-			rfile := filepath.Join(vd, "replays", *prop, safeName(f.res.Short+"#"+full)+".json")
+			rfile := filepath.Join(outDir, "replays", *prop, safeName(f.res.Short+"#"+full)+".json")
 			var rr ReplayResult
 			if reproducedName[o.Name] || replayTries[o.Name] >= 3 {
 				// same obligation in another split case: already replayed; record without a new replay
@@ -343,9 +349,9 @@ func cmdCheck(args []string) int {
 		"wall_s":      round3(wall),
 		"violations":  violations,
 	}
-	os.MkdirAll(filepath.Join(vd, "evidence"), 0o755)
+	os.MkdirAll(filepath.Join(outDir, "evidence"), 0o755)
 	b, _ := json.MarshalIndent(ev, "", " ")
-	os.WriteFile(filepath.Join(vd, "evidence", *prop+".json"), b, 0o644)
+	os.WriteFile(filepath.Join(outDir, "evidence", *prop+".json"), b, 0o644)
 	fmt.Printf("%s: %d functions, %d obligations, %d discharged, %d known findings, %d violations, %d undecided, %d/%d vacuity probes ok, %.1fs\n",
 		*prop, len(reports), nObl, nDis, nKnown, violations, len(undecided), nVacOK, nVac, wall)
 	return exit
